@@ -831,14 +831,38 @@ func (t *c21Types) nontrivial() bool {
 // ---------------------------------------------------------------------------------------------
 
 type c21Item struct {
-	g  *Gram // compiled grammar view
-	gp *GenParser
-	t  *c21Types
-	o  *c21Opts
+	g      *Gram // compiled grammar view
+	gp     *GenParser
+	t      *c21Types
+	o      *c21Opts
+	inputs []string // fixed inputs (witness grammars) instead of generated sentences
+}
+
+// c21Witnesses: minimal grammars of the known defect classes, run (and flagged) with VERIF_FINDINGS=1.
+var c21Witnesses = []struct{ rules, inputs string }{
+	{"S -> Root : ( -> Emp) ('a' -> X) 'b' ;", "a b"},                                   // [C21-empty-node] swallowed by the next sibling
+	{"S -> Root : ('a' (N -> T) -> P) 'b' ;\nN : 'a' | %empty ;", "a b"},                 // [C21-empty-node] leaves its parent
+	{"%inject ',' -> Comma;\nS -> Root : (E separator ',')+ ;\nE -> E : 'a' ;", "a , a"}, // [C21-separator-token]
+	{"S -> Root : (A -> TA) | 'c' (B -> TB) ;\nA : ('a' -> X) B ;\nB : A ('b' -> Y) | (',' -> Z) ;", "c ,"}, // [C21-required-list-empty]
+	{"%interface TokenSet;\nS -> Root : 'b' E? ;\nE -> TokenSet : 'a' -> A ;", "b"},      // [C21-tokenset-interface]
+}
+
+func c21WitnessItems() []*c21Item {
+	var items []*c21Item
+	for i, w := range c21Witnesses {
+		name := fmt.Sprintf("w%d", i)
+		tm := fmt.Sprintf("language %s(go);\n\nlang = %q\npackage = \"gp/%s\"\neventBased = true\neventFields = true\neventAST = true\n\n::lexer\n\nWhiteSpace: /[ ]+/ (space)\n'a': /a/\n'b': /b/\n'c': /c/\n',': /,/\n\n::parser\n\n%%input S;\n\n%s\n", name, name, name, w.rules)
+		gp := compileTM(name, tm, TMOpts{})
+		if gp.Err != nil || gp.G.Parser.Types == nil {
+			continue
+		}
+		items = append(items, &c21Item{g: c21Gram(gp), gp: gp, t: newC21Types(gp), o: &c21Opts{Findings: true}, inputs: strings.Split(w.inputs, "|")})
+	}
+	return items
 }
 
 func c21(c *Ctx) {
-	c.Rule = "random CFGs in which every nonterminal is reachable from the start symbol (2-5 nonterminals, 2-5 terminals, empty rules, back references = recursion; LALR(1) conflict-free, all productive) decorated with nested arrows whose node type names are drawn WITH reuse from a pool of 3-8 names (merged phrases, multi-type selectors, fields of equal selector -> FetchAfter chains), named fields f=X / f+=X on single-field elements, optional parts, lists (X+, X*, (X separator t)+, (… -> T)+), categories (%interface on nonterminals whose rules all carry an arrow), reported terminals (%inject on grammar terminals), an injected comment token (placed between tokens of the inputs) and fileNode; compiled by the REAL compiler with eventFields+eventAST (grammars it rejects — overlapping fields, several fields behind an assignment, conflicts introduced by the decoration — are counted and skipped; up to 40 decorations per base grammar). Per grammar: (1) `validate`: Parser.Types + compiled rules/reports -> Lean checkTypes (hypothesis of C21_checkTypes_sound; textmapper.tm and, in the thorough tier, js.tm go through `fields` = checkFields because they contain a possibly-empty node); (2) END TO END, independent of the validator: the generated ast packages are built in one batch and for every sentence of the compiled grammar up to 6 tokens (cap 300) plus 40 random sentences the whole tree is walked and EVERY accessor of EVERY node is called (calls generated from Parser.Types, each under recover) and the factory To<Lang>Node on every node: panic, invalid required node, node outside the receiver's children, node type outside the expanded selector, presence flag mismatch, child (other than an injected token) returned by no accessor -> violation with grammar and input; (3) `access`: what the real accessors returned vs Lean `access` (mirror of the template chain) on the observed child sequence, judged by the property on disagreement; (4) `seqs`: every observed child sequence of a T node must be in L(approx g T) (ties `layout`/ChildSeq to the offset-based tree builder). non-trivial = grammar with a node type of >= 2 fields; distinct by grammar text. AVOIDED CLASSES = findings of this check (VERIF_FINDINGS=1 generates and flags them): [C21-empty-node] a reported range or typed rule that can derive the empty string (the AST builder nests by offsets: an empty node becomes a child of the following sibling or leaves its parent) — grammars whose COMPILED rules contain such a range are skipped; [C21-separator-token] a reported terminal used as a list separator (exprPhrase ignores List.Sub[1], the separator nodes are returned by no accessor) — separators are drawn from unreported terminals; [C21-required-list-empty] a list field declared `(X)+` (IsRequired) that can be empty (phrase cache shared by all members of a recursive SCC) — IsRequired of LIST fields is not used by the accessor template, so this is counted (`soft`), not treated as a violation."
+	c.Rule = "random CFGs in which every nonterminal is reachable from the start symbol (2-5 nonterminals, 2-5 terminals, empty rules, back references = recursion; LALR(1) conflict-free, all productive) decorated with nested arrows whose node type names are drawn WITH reuse from a pool of 3-8 names (merged phrases, multi-type selectors, fields of equal selector -> FetchAfter chains), named fields f=X / f+=X on single-field elements, optional parts, lists (X+, X*, (X separator t)+, (… -> T)+), categories (%interface on nonterminals whose rules all carry an arrow), reported terminals (%inject on grammar terminals), an injected comment token (placed between tokens of the inputs) and fileNode; compiled by the REAL compiler with eventFields+eventAST (grammars it rejects — overlapping fields, several fields behind an assignment, conflicts introduced by the decoration — are counted and skipped; up to 40 decorations per base grammar). Per grammar: (1) `validate`: Parser.Types + compiled rules/reports -> Lean checkTypes (hypothesis of C21_checkTypes_sound; textmapper.tm and, in the thorough tier, js.tm go through `fields` = checkFields because they contain a possibly-empty node); (2) END TO END, independent of the validator: the generated ast packages are built in one batch and for every sentence of the compiled grammar up to 6 tokens (cap 300) plus 40 random sentences the whole tree is walked and EVERY accessor of EVERY node is called (calls generated from Parser.Types, each under recover) and the factory To<Lang>Node on every node: panic, invalid required node, node outside the receiver's children, node type outside the expanded selector, presence flag mismatch, child (other than an injected token) returned by no accessor -> violation with grammar and input; (3) `access`: what the real accessors returned vs Lean `access` (mirror of the template chain) on the observed child sequence, judged by the property on disagreement; (4) `seqs`: every observed child sequence of a T node must be in L(approx g T) (ties `layout`/ChildSeq to the offset-based tree builder). non-trivial = grammar with a node type of >= 2 fields; distinct by grammar text. AVOIDED CLASSES = findings of this check (VERIF_FINDINGS=1 generates and flags them): [C21-empty-node] a reported range or typed rule that can derive the empty string (the AST builder nests by offsets: an empty node becomes a child of the following sibling or leaves its parent) — grammars whose COMPILED rules contain such a range are skipped; [C21-separator-token] a reported terminal used as a list separator (exprPhrase ignores List.Sub[1], the separator nodes are returned by no accessor) — separators are drawn from unreported terminals; [C21-required-list-empty] a list field declared `(X)+` (IsRequired) that can be empty (phrase cache shared by all members of a recursive SCC) — IsRequired of LIST fields is not used by the accessor template, so this is counted (`soft`), not treated as a violation; [C21-tokenset-interface] an interface the grammar itself names `TokenSet`: the template omits `func (NilNode) tokenSetNode()`, an absent optional field of that category panics — the generator never uses that name. With VERIF_FINDINGS=1 one minimal witness grammar per class is run first."
 	if f := os.Getenv("TMH_C21_FILE"); f != "" {
 		c21Debug(c, f)
 		return
@@ -849,6 +873,9 @@ func c21(c *Ctx) {
 	c21Shipped(c)
 	for done := 0; done < nG; done += batchSize {
 		var items []*c21Item
+		if findings && done == 0 {
+			items = c21WitnessItems()
+		}
 		for k := 0; k < batchSize && done+k < nG; k++ {
 			var g *Gram
 			for tries := 0; tries < 40; tries++ {
@@ -982,6 +1009,13 @@ func c21RunBatch(c *Ctx, items []*c21Item) {
 	var reqs []astReq
 	var metas []*c21Item
 	for _, it := range items {
+		if it.inputs != nil {
+			for _, text := range it.inputs {
+				reqs = append(reqs, astReq{Parser: it.gp.Name, Text: text})
+				metas = append(metas, it)
+			}
+			continue
+		}
 		start := it.g.Inputs[0].Sym
 		for _, w := range c21Sentences(c.Rng, it.g, start, 6, 300, 40) {
 			reqs = append(reqs, astReq{Parser: it.gp.Name, Text: c21Text(c.Rng, it.gp, w, it.o.Comment, it.o.FileNode)})
@@ -1073,11 +1107,16 @@ func (it *c21Item) classTag(nodes []c21Node, n *c21Node, viol string) string {
 			return " [C21-empty-node]"
 		}
 	}
-	if i := strings.Index(viol, "(Tok"); i >= 0 && strings.Contains(viol, "is not returned by any accessor") && i+4 < len(viol) {
+	if strings.Contains(viol, "panicked") && strings.Contains(it.gp.TM, "%interface TokenSet;") {
+		return " [C21-tokenset-interface]"
+	}
+	if strings.Contains(viol, "is not returned by any accessor") {
 		// the uncovered child is a reported terminal that the grammar uses as a list separator
-		term := strings.ToLower(viol[i+4 : i+5])
-		if strings.Contains(it.gp.TM, "separator '"+term+"')") && strings.Contains(it.gp.TM, "%inject '"+term+"'") {
-			return " [C21-separator-token]"
+		for _, mt := range it.gp.G.Parser.MappedTokens {
+			sym := it.gp.G.Syms[mt.Token]
+			if !sym.Space && strings.Contains(viol, "("+mt.Name+")") && strings.Contains(it.gp.TM, "separator "+sym.Name+")") {
+				return " [C21-separator-token]"
+			}
 		}
 	}
 	return ""
